@@ -191,6 +191,7 @@ const ULP: f64 = 2.220446049250313e-16; // 2^-52
 
 struct Exec<'a> {
     case: &'a DigestCase,
+    prop: &'static str,
     sname: &'static str,
     stats: RunStats,
     viol: Vec<Violation>,
@@ -198,6 +199,15 @@ struct Exec<'a> {
 }
 
 impl<'a> Exec<'a> {
+    /// Drops deviations that belong to other properties and tells whether one of the checked property
+    /// remains. All oracles of this scenario compare with the exact model independently of each other,
+    /// so a run that has shown, say, a wrong min() (C16) can still be judged for rank accuracy (C04).
+    fn mine(&mut self) -> bool {
+        let p = self.prop;
+        self.viol.retain(|x| x.property == p);
+        !self.viol.is_empty()
+    }
+
     fn q_grid(n: usize) -> Vec<f64> {
         let nf = n.max(1) as f64;
         let mut g = vec![0.0, ULP, 1e-9, 0.25 / nf, 0.5 / nf, 1.0 / nf, 1.5 / nf, 1.0 - 1.5 / nf, 1.0 - 1.0 / nf, 1.0 - 0.5 / nf, 1.0 - 0.25 / nf, 1.0 - 1e-9, 1.0 - ULP / 2.0, 1.0];
@@ -272,7 +282,9 @@ impl<'a> Exec<'a> {
             if r1.to_bits() != r2.to_bits() {
                 self.viol.push(v("C15", format!("tdigest/{}/read-not-repeatable", s), self.step,
                     format!("{}({}) returned {} as the first read after an insert and {} after other reads (no insert in between)", if k == 0 { "quantile" } else { "cdf" }, arg, r1, r2)));
-                return;
+                if self.mine() {
+                    return;
+                }
             }
             self.stats.probe("first_read_after_insert_checked");
         }
@@ -331,12 +343,16 @@ impl<'a> Exec<'a> {
             if !(val >= prev - tol_v) {
                 self.viol.push(v("C15", format!("tdigest/{}/quantile-not-monotone", s), self.step,
                     format!("quantile({}) = {} < quantile of a smaller q = {}", q, val, prev)));
-                return;
+                if self.mine() {
+                    return;
+                }
             }
             if !(val >= a.min - tol_v && val <= a.max + tol_v) {
                 self.viol.push(v("C15", format!("tdigest/{}/quantile-out-of-range", s), self.step,
                     format!("quantile({}) = {} outside [min, max] = [{}, {}]", q, val, a.min, a.max)));
-                return;
+                if self.mine() {
+                    return;
+                }
             }
             prev = prev.max(val);
             if a.unit {
@@ -349,7 +365,9 @@ impl<'a> Exec<'a> {
                         self.viol.push(v("C04", format!("tdigest/{}/quantile-rank-error", s), self.step,
                             format!("n = {}, delta = {}, backlog = {}, pattern {}: quantile({}) = {:e} has empirical rank in [{:.6}, {:.6}], off by {:.6} > {} W + 2/n = {:.6}",
                                 n, case.delta, case.backlog, case.pattern, q, val, lo, hi, dist, c, allowed)));
-                        return;
+                        if self.mine() {
+                    return;
+                }
                     }
                 }
             }
@@ -366,7 +384,12 @@ impl<'a> Exec<'a> {
         if nc > 1 && d.quantile((1.0 - 0.25 / a.sw).clamp(0.0, 1.0)) < a.max - tol_v {
             self.stats.probe("fused_centroid_at_tail");
         }
-        if !self.viol.is_empty() || extreme {
+        if self.mine() || extreme {
+            return;
+        }
+        if qs.iter().any(|x| x.is_nan()) {
+            // (a quantile that is NaN has been reported above under C15; the cdf clauses take these
+            // values as arguments, and NaN is not a legal argument of cdf)
             return;
         }
 
@@ -385,20 +408,28 @@ impl<'a> Exec<'a> {
             let cv = d.cdf(x);
             if !(cv >= prevc - tol_q) {
                 self.viol.push(v("C15", format!("tdigest/{}/cdf-not-monotone", s), self.step, format!("cdf({}) = {} < cdf of a smaller x = {}", x, cv, prevc)));
-                return;
+                if self.mine() {
+                    return;
+                }
             }
             prevc = prevc.max(cv);
             if !(cv >= -tol_q && cv <= 1.0 + tol_q) {
                 self.viol.push(v("C15", format!("tdigest/{}/cdf-out-of-range", s), self.step, format!("cdf({}) = {}", x, cv)));
-                return;
+                if self.mine() {
+                    return;
+                }
             }
             if x < a.min && cv != 0.0 {
                 self.viol.push(v("C15", format!("tdigest/{}/cdf-below-min", s), self.step, format!("cdf({}) = {} for x < min() = {}", x, cv, a.min)));
-                return;
+                if self.mine() {
+                    return;
+                }
             }
             if x >= a.max && (cv - 1.0).abs() > tol_q {
                 self.viol.push(v("C15", format!("tdigest/{}/cdf-from-max", s), self.step, format!("cdf({}) = {} for x >= max() = {}", x, cv, a.max)));
-                return;
+                if self.mine() {
+                    return;
+                }
             }
             if a.unit && x >= a.min && x <= a.max {
                 if let Some(w) = w {
@@ -409,7 +440,9 @@ impl<'a> Exec<'a> {
                         self.viol.push(v("C04", format!("tdigest/{}/cdf-rank-error", s), self.step,
                             format!("n = {}, delta = {}, backlog = {}, pattern {}: cdf({:e}) = {:.6}, empirical CDF there is [{:.6}, {:.6}], off by {:.6} > {} W + 2/n = {:.6}",
                                 n, case.delta, case.backlog, case.pattern, x, cv, lo, hi, dist, c, allowed)));
-                        return;
+                        if self.mine() {
+                    return;
+                }
                     }
                 }
             }
@@ -424,7 +457,9 @@ impl<'a> Exec<'a> {
             let (c1, c2) = (d.cdf(x), d.cdf(x));
             if r1.to_bits() != r2.to_bits() || c1.to_bits() != c2.to_bits() {
                 self.viol.push(v("C15", format!("tdigest/{}/read-not-repeatable", s), self.step, format!("two consecutive reads at {} returned {} / {} and {} / {}", q, r1, r2, c1, c2)));
-                return;
+                if self.mine() {
+                    return;
+                }
             }
         }
 
@@ -463,7 +498,9 @@ impl<'a> Exec<'a> {
                     let tail = if q > 0.5 { "right" } else { "left" };
                     self.viol.push(v("C15", format!("tdigest/{}/cdf-quantile-inconsistent/{}", s, tail), self.step,
                         format!("n = {}, {} centroids, delta = {}, pattern {}: quantile({}) = {}, cdf of that = {} (allowed difference {:.3e})", n, nc, case.delta, case.pattern, q, val, back, allowed)));
+                    if self.mine() {
                     return;
+                }
                 }
             }
         } else {
@@ -633,7 +670,7 @@ impl<'a> Exec<'a> {
                     since_compact = 0;
                 }
             }
-            if !self.viol.is_empty() {
+            if self.mine() {
                 return;
             }
         }
@@ -893,7 +930,7 @@ impl Scenario for S4 {
     }
 
     fn execute(case: &DigestCase, prop: &'static str) -> Outcome {
-        let mut ex = Exec { case, sname: scale_name(case.scale), stats: RunStats::default(), viol: vec![], step: 0 };
+        let mut ex = Exec { case, prop, sname: scale_name(case.scale), stats: RunStats::default(), viol: vec![], step: 0 };
         let r = guarded(|| ex.body());
         if let Caught::LibPanic(loc, msg) = r {
             let class = format!("tdigest/{}/panic/{}", ex.sname, panic_site(&loc));
